@@ -382,7 +382,18 @@ def _prim_call(ctx, fi, e, name):
     return False
 
 
+class _Reported(Exception):
+    pass
+
+
 def inverse_mirror(ctx: Ctx, fwd, inv):
+    try:
+        return _inverse_mirror(ctx, fwd, inv)
+    except _Reported:
+        return None
+
+
+def _inverse_mirror(ctx: Ctx, fwd, inv):
     res = ctx.res
     key = f"{fwd.name} <-> {inv.name}"
     # forward: return reshape(moveaxis(t, S, D), ...)
@@ -416,6 +427,9 @@ def inverse_mirror(ctx: Ctx, fwd, inv):
     def do_pop(v, node):
         lst = v.func.value.id
         st = env.get(lst)
+        if st and st[0] == "alias":
+            ctx.finding("INVERSE-MIRROR", inv, v, f"{inv.name} edits `{lst}` in place (`{src(v)}`), and `{lst}` can be the caller's own `{st[1]}` (it is only copied for some argument kinds): after the call the caller's shape has the axis moved, so folding again with the same shape object re-arranges into the wrong shape", construct=f"{lst}.pop on the caller's {st[1]}")
+            raise _Reported()
         if not st or st[0] != "full":
             raise AnalysisError(f"INVERSE-MIRROR {key}: `{src(v)}` pops from a list that is not a fresh copy of the shape; cannot decide")
         env[lst] = ("minus", st[1], v.args[0])
@@ -424,7 +438,19 @@ def inverse_mirror(ctx: Ctx, fwd, inv):
 
     def ev(e):
         if isinstance(e, ast.Name):
+            if e.id not in env and e.id in inv.all_params:
+                return ("alias", e.id)  # the caller's own object
             return env.get(e.id)
+        if isinstance(e, ast.IfExp):
+            a_, b_ = ev(e.body), ev(e.orelse)
+            if (a_ and a_[0] == "alias") or (b_ and b_[0] == "alias"):
+                al = a_ if a_ and a_[0] == "alias" else b_
+                other = b_ if al is a_ else a_
+                if other and other[0] in ("full", "alias") and other[1] == al[1]:
+                    return al  # on some inputs the list is the caller's
+            if a_ and b_ and a_ == b_:
+                return a_
+            return None
         if isinstance(e, ast.Call) and is_name(e.func, "list") and len(e.args) == 1 and isinstance(e.args[0], ast.Name) and e.args[0].id in inv.all_params:
             return ("full", e.args[0].id)
         if isinstance(e, ast.Call) and is_name(e.func, "list") and len(e.args) == 1:
